@@ -208,6 +208,14 @@ func alphabet() []action {
 		textAction("Text(DejaVuSerif,ascii95,red@0.5,underline)", "DejaVuSerif", ascii95, func(f *canvas.Font) *canvas.FontFace {
 			return f.Face(10, color.RGBA{128, 0, 0, 128}, canvas.FontUnderline)
 		}),
+		action{"TextVertical(DejaVuSerif,\"Hi\",VerticalRL,Upright)", func(d *doc) {
+			rt := canvas.NewRichText(d.font("DejaVuSerif").Face(12, canvas.Black))
+			rt.SetWritingMode(canvas.VerticalRL)
+			rt.SetTextOrientation(canvas.Upright)
+			rt.WriteString("Hi")
+			d.p.RenderText(rt.ToText(0, 0, canvas.Left, canvas.Top, 0, 0), canvas.Identity.Translate(30, 18))
+			d.page().texts++
+		}},
 		textAction("Text(EBGaramond,\"Hi\")", "EBGaramond", "Hi", func(f *canvas.Font) *canvas.FontFace { return f.Face(12, canvas.Black) }),
 		textAction("Text(EBGaramond,\"fi Ünï č\"+ascii95)", "EBGaramond", "fi Ünï č"+ascii95, func(f *canvas.Font) *canvas.FontFace { return f.Face(9, canvas.Blue) }),
 		action{"Image(opaque,rotated)", func(d *doc) {
@@ -252,7 +260,7 @@ const linkURI = "https://example.com/a(b)?c=\\d)"
 // writes for fonts, so everything about fonts is kept.
 func reducedAlphabet(full []action) []action {
 	keep := []string{"NewPage(50,20.5)", "Path(fill=red)", "Path(fill=linear-gradient)",
-		"Text(DejaVuSerif,\"Hi\")", "Text(DejaVuSerif,ascii95", "Text(EBGaramond,\"Hi\")", "Text(EBGaramond,\"fi",
+		"Text(DejaVuSerif,\"Hi\")", "TextVertical(DejaVuSerif", "Text(DejaVuSerif,ascii95", "Text(EBGaramond,\"Hi\")", "Text(EBGaramond,\"fi",
 		"Image(opaque", "Image(alpha)", "AddLink", "SetInfo(\"Plain title\"", "SetInfo(\"Ünï\"", "SetLang(\"en-US\")"}
 	var out []action
 	for _, k := range keep {
@@ -1036,7 +1044,7 @@ func Prop() *fw.Property {
 		ID:    "C13",
 		Level: "model_checking",
 		Rule: "every history (word) of the stated length over the call alphabet {NewPage x2, RenderPath x6 styles (opaque, alpha fill+stroke, linear gradient, even-odd dashed stroke, radial gradient with inner stops, gradient to transparent), " +
-			"RenderText x4 (TrueType DejaVuSerif and CFF EBGaramond; 2 and >95 distinct glyphs, alpha, underline), RenderImage x2 (opaque rotated, with alpha), SetImageEncoding(Lossy), AddLink, SetInfo x7 (each of the five fields takes each of 7 values: empty, ASCII, parentheses+backslash, Latin-1, UTF-16 with CR byte, UTF-16 with ( ) \\ bytes, ASCII with CR LF), SetLang x2} " +
+			"RenderText x5 (TrueType DejaVuSerif and CFF EBGaramond; 2 and >95 distinct glyphs, alpha, underline; one upright vertical text), RenderImage x2 (opaque rotated, with alpha), SetImageEncoding(Lossy), AddLink, SetInfo x7 (each of the five fields takes each of 7 values: empty, ASCII, parentheses+backslash, Latin-1, UTF-16 with CR byte, UTF-16 with ( ) \\ bytes, ASCII with CR LF), SetLang x2} " +
 			"x {Compress} x {SubsetFonts}, each on a fresh pdf.New writer and closed; the bytes are parsed by an independent reader and checked clause by clause; " +
 			"state = distinct document (SHA-1 of the bytes with CreationDate blanked), transition = one API call, validated trace = one document checked; distinct_nontrivial = globally distinct documents (states is summed per worker)",
 		Assumptions: []string{
